@@ -71,6 +71,11 @@ def oracle_c04(obs, part, replay):
                 cut = refwarc.http_payload_offset(want)
                 if resp['block'] != want[:len(resp['block'])]:
                     part.violation('revisit-block-not-a-prefix-of-wire/' + key_tail, {'url': ex['url']}, replay)
+                if not ex.get('expect_revisit'):
+                    # a header-only record stands for the response only when the identical payload is archived already
+                    part.violation('response-cut-to-a-revisit-although-its-payload-is-not-archived/' +
+                                   ('changed-document' if ex.get('changed_since_archived') else 'unknown-url'),
+                                   {'url': ex['url'], 'block_len': len(resp['block']), 'wire_len': len(want)}, replay)
                 part.count('revisit_records')
             elif resp['block'] != want:
                 part.violation('response-block-differs/{}'.format(key_tail),
